@@ -35,7 +35,7 @@ func (c *vctx) Err() error {
 		return c.err
 	}
 	var e error
-	w.yield(&op{kind: opNop, name: "ctx-err", eff: func() {
+	w.yield(&op{kind: opNop, name: "ctx-err", obj: &c.hash, ro: true, eff: func() {
 		e = c.err
 		g := w.cur
 		g.hash = mix(g.hash, c.hash, 0xe44)
@@ -118,7 +118,7 @@ func (c *vctx) cancelOp(err, cause error) {
 	if w.running.killed {
 		return
 	}
-	w.yield(&op{kind: opNop, name: "cancel", eff: func() {
+	w.yield(&op{kind: opNop, name: "cancel", fpFn: c.subtreeFootprint, eff: func() {
 		g := w.cur
 		g.hash = mix(g.hash, c.hash, 0xca9)
 		if c.err == nil {
@@ -204,4 +204,24 @@ func Cause(ctx context.Context) error {
 		return c.cause
 	}
 	return context.Cause(ctx)
+}
+
+// subtreeFootprint lists the hash words of every context (and its Done channel) a cancel of c reaches.
+func (c *vctx) subtreeFootprint() []*uint64 {
+	var out []*uint64
+	var walk func(n *vctx)
+	walk = func(n *vctx) {
+		out = append(out, &n.hash)
+		if vc := n.w.chans[chanID(n.done)]; vc != nil {
+			out = append(out, &vc.hash)
+		}
+		for _, k := range n.children {
+			walk(k)
+		}
+	}
+	walk(c)
+	if c.up != nil {
+		out = append(out, &c.up.hash) // unregisters from the parent's child list
+	}
+	return out
 }
